@@ -573,6 +573,9 @@ C15(e, pre, post, mon) ==
                  "C15: the adopted option is not the one with the most votes")
          \cup If(\E id \in applied : pre.fprops[id].apply > h, "C15: an adopted proposal was applied before its applying height")
          \cup If(\E id \in DOMAIN pre.props \cap DOMAIN post.props : pre.props[id] # post.props[id], "C15: an open proposal changed at the end of a block")
+         \* the winning parameters take effect: an adopted parameter proposal (type 257) that is applied leaves parameters pending
+         \cup If((\E id \in applied : pre.fprops[id].optType = 257 /\ pre.fprops[id].major.some) /\ ~post.govPending.some,
+                 "C15: an adopted parameter proposal was applied but no parameters are pending for the commit")
          \cup (IF post.govPending # pre.govPending THEN
                  If(~post.govPending.some, "C15: pending parameters vanished at the end of a block")
                  \cup If(post.govPending.some /\ ~\E id \in applied :
@@ -633,6 +636,13 @@ C19Again(e, mon) ==
                        THEN {"raw"} ELSE {}) IN
        If(fs # {} \/ DOMAIN a # DOMAIN b,
           "C19: the answers for the previous height changed when one more block was committed")
+  ELSE {}
+
+\* the governance query for the height just committed returns the parameters in force from that commit on (what the
+\* block committed: the previously active ones, or the adopted ones it applied)
+C19Gov(e, post) ==
+  IF e.ev = "Commit" /\ "committed" \in DOMAIN e
+  THEN If(e.committed.gov # post.gov, "C19: the governance query for the height just committed does not return the parameters that block committed")
   ELSE {}
 
 C19Commit(e, pre) ==
